@@ -12,6 +12,7 @@ import (
 
 // goPanic starts Go-level panicking in goroutine g.
 func (ex *Exec) goPanic(g *G, val Value, msg string) {
+	ex.trace = append(ex.trace, "panic: "+msg+ex.where())
 	g.panic = &panicState{val: val, msg: msg}
 	g.pending = nil
 }
@@ -137,7 +138,7 @@ func (ex *Exec) step(g *G, fr *Frame) {
 	case *ssa.DebugRef:
 		fr.ip++
 	case *ssa.Alloc:
-		l := ex.newLoc(x.Type().(*types.Pointer).Elem())
+		l := ex.newLoc(types.Unalias(x.Type()).(*types.Pointer).Elem())
 		l.Owner = g.id
 		ex.set(fr, x, Ptr{l})
 		fr.ip++
@@ -464,7 +465,7 @@ func (ex *Exec) evalValueInstr(g *G, fr *Frame, v ssa.Value) Value {
 		return ex.rangeNext(x, ex.get(fr, x.Iter))
 	case *ssa.SliceToArrayPointer:
 		s := ex.get(fr, x.X).(SliceV)
-		n := int(x.Type().(*types.Pointer).Elem().Underlying().(*types.Array).Len())
+		n := int(types.Unalias(x.Type()).(*types.Pointer).Elem().Underlying().(*types.Array).Len())
 		if s.Len < n {
 			ex.rtPanic(g, "cannot convert slice to array pointer: length too short")
 			return nil
